@@ -2146,6 +2146,58 @@ impl PrinterLogMessage {
     }
 //@end
 
+
+    /// ASSUMED (not under contract: its loop body exceeds every resource limit, see wip_prepend_color.txt): the colour variant with
+    /// prepended fields writes the payload of the non-colour variant and returns its length
+    #[verifier::external_body]
+    fn print_evtx_prepend_color(&mut self, evtx: &Evtx, do_prependfile: bool, do_prependdate: bool) -> (r: PrinterLogMessageResult)
+        requires old(self).buffer@.len() == 0, old(self).col_ok(),
+        ensures
+            final(self).same_config(old(self)), final(self).same_colors(old(self)),
+            r is Ok ==> final(self).buffer@.len() == 0 && final(self).col_ok(),
+            r is Ok ==> r->Ok_0.0 as int == epayload(old(self).x_prefix(evtx.dt_spec(), do_prependfile, do_prependdate), evtx.data()).len(),
+    { unimplemented!() }
+
+//@cut fn path=src/printer/printers.rs impl=PrinterLogMessage name=print_evtx ret=r
+//@spec
+    requires
+        old(self).config_ok(),
+        hl_ok(evtx.hl(), evtx.data().len() as int),
+        epayload(old(self).x_prefix(evtx.dt_spec(), old(self).do_prepend_file, old(self).do_prepend_date), evtx.data()).len() <= usize::MAX,
+        evtx.data().len() * 6 + 4 < usize::MAX,
+    ensures
+        final(self).same_config(old(self)),
+        r is Ok ==> final(self).config_ok(),
+        // C13: whatever the colour setting, the payload is the text itself without prepend options, else per line prefix ++ line
+        r is Ok ==> r->Ok_0.0 as int == (if !old(self).do_prepend_file && !old(self).do_prepend_date { evtx.data().len() as int }
+            else { epayload(old(self).x_prefix(evtx.dt_spec(), old(self).do_prepend_file, old(self).do_prepend_date), evtx.data()).len() as int }),
+//@end
+
+    /// ASSUMED (not under contract: its loop body exceeds every resource limit, see wip_prepend_color.txt): the colour variant with
+    /// prepended fields writes the payload of the non-colour variant and returns its length
+    #[verifier::external_body]
+    fn print_journalentry_prepend_color(&mut self, journalentry: &JournalEntry, do_prependfile: bool, do_prependdate: bool) -> (r: PrinterLogMessageResult)
+        requires old(self).buffer@.len() == 0, old(self).col_ok(),
+        ensures
+            final(self).same_config(old(self)), final(self).same_colors(old(self)),
+            r is Ok ==> final(self).buffer@.len() == 0 && final(self).col_ok(),
+            r is Ok ==> r->Ok_0.0 as int == epayload(old(self).x_prefix(journalentry.dt_spec(), do_prependfile, do_prependdate), journalentry.data()).len(),
+    { unimplemented!() }
+
+//@cut fn path=src/printer/printers.rs impl=PrinterLogMessage name=print_journalentry ret=r
+//@spec
+    requires
+        old(self).config_ok(),
+        hl_ok(journalentry.hl(), journalentry.data().len() as int),
+        epayload(old(self).x_prefix(journalentry.dt_spec(), old(self).do_prepend_file, old(self).do_prepend_date), journalentry.data()).len() <= usize::MAX,
+        journalentry.data().len() * 6 + 4 < usize::MAX,
+    ensures
+        final(self).same_config(old(self)),
+        r is Ok ==> final(self).config_ok(),
+        // C13: whatever the colour setting, the payload is the text itself without prepend options, else per line prefix ++ line
+        r is Ok ==> r->Ok_0.0 as int == (if !old(self).do_prepend_file && !old(self).do_prepend_date { journalentry.data().len() as int }
+            else { epayload(old(self).x_prefix(journalentry.dt_spec(), old(self).do_prepend_file, old(self).do_prepend_date), journalentry.data()).len() as int }),
+//@end
 //PRNX-REGION
 //@endif
 }
